@@ -127,6 +127,28 @@ Definition cache_key (legacy : bool) (p : pipeline) (f : pfunc) (kw : alist) (ra
 
 Definition none_val : str := s "None".           (* canon(None) *)
 
+(* ---------- what the theorems need to know about Pipeline.root_args (Pipe.root_args mirrors _compute_arg_mapping;
+   its characterisation is C02's subject): the reported tuple consists of non-outputs and contains every name that
+   the evaluation of the output reads from the keywords / defaults, i.e. every unbound non-output parameter of a
+   function reachable from it through unbound parameters.  Decidable, checked on every generated case. ---------- *)
+Fixpoint reads_ok (fuel : nat) (p : pipeline) (ra : list str) (o : str) {struct fuel} : bool :=
+  match fuel with
+  | O => true
+  | S n =>
+      match producer p o with
+      | None => true
+      | Some g =>
+          forallb (fun cur => if ahas (bound g) cur then true
+                              else if is_output p cur then reads_ok n p ra cur
+                              else mem_str cur ra) (pnames g)
+      end
+  end.
+Definition roots_okb (p : pipeline) : bool :=
+  forallb (fun o => match root_args p o with
+                    | Ok ra => all_root p ra && reads_ok (S (length p)) p ra o
+                    | Err _ => false
+                    end) (all_outputs p).
+
 Section WithBody.
   Variable body : str -> alist -> result str.
   Variable pick : str -> str -> str.
@@ -146,6 +168,7 @@ Section WithBody.
   Definition x_c (st : xstate) (c : C) := {| xres := xres st; xused := xused st; xhit := xhit st; xlog := xlog st; xc := c |}.
 
   Section Run.
+    Variable use : bool.           (* false = the uncached twin: func.cache is False / Pipeline.cache is None *)
     Variable p : pipeline.
     Variable kw : alist.
     Variable full : bool.
@@ -204,7 +227,7 @@ Section WithBody.
                   match root_args p o with                             (* root_args = self.root_args(output_name) *)
                   | Err e => (st, Err e)
                   | Ok ra =>
-                      let key := if cached f then cache_key legacy p f kw ra else None in
+                      let key := if use && cached f then cache_key legacy p f kw ra else None in   (* use_cache *)
                       let found := match key with
                                    | Some k => if cmem P (xc st) k then Some (cget P (xc st) k) else None
                                    | None => None
@@ -253,11 +276,12 @@ Section WithBody.
   End Run.
 
   (* Pipeline.run(output_name, full_output=full, kwargs=kw) on a pipeline whose cache is c *)
-  Definition crun (p : pipeline) (c : C) (o : str) (kw : alist) (full : bool) : result outcome * list call * C :=
+  Definition crun (use : bool) (p : pipeline) (c : C) (o : str) (kw : alist) (full : bool)
+    : result outcome * list call * C :=
     if negb (is_node p o) then (Err KeyError, [], c)
     else if ahas kw o then (Err ValueError, [], c)
     else
-      let '(st, r) := crun_out p kw full (S (length p)) (cinit kw c) o in
+      let '(st, r) := crun_out use p kw full (S (length p)) (cinit kw c) o in
       match r with
       | Err e => (Err e, xlog st, xc st)
       | Ok v =>
@@ -324,17 +348,13 @@ Section WithBody.
     | Replace new => replace_func new p
     end.
 
-  (* the uncached twin: the same functions with cache=False *)
-  Definition uncache_f (f : pfunc) : pfunc := mkf (fname f) (outs f) (params f) (dflt f) (bound f) false.
-  Definition uncache (p : pipeline) : pipeline := map uncache_f p.
-
-  (* a history on one pipeline object; `use` = false runs the uncached twin (the pipeline value p is the same in
-     both twins, only the cache flags are dropped at the moment of a call) *)
+  (* a history on one pipeline object; `use` = false runs the uncached twin (the same functions with cache=False
+     in a pipeline without cache: use_cache is False in every _run) *)
   Fixpoint exec_hist (use : bool) (p : pipeline) (c : C) (h : list step) : list sobs :=
     match h with
     | [] => []
     | Call o kw full :: t =>
-        let '(r, lg, c') := crun (if use then p else uncache p) c o kw full in
+        let '(r, lg, c') := crun use p c o kw full in
         OCall r lg :: exec_hist use p c' t
     | m :: t =>
         let '(p', r) := mutate m p in
